@@ -167,7 +167,7 @@ def rand_opt(rng):
     if k in (6, 7):
         items = []
         for _ in range(rng.choice([0, 1, 1, 2, 3])):
-            key = rng.choice(["a", "key", "x1", "K" * rng.choice([1, 100, 200])])
+            key = rng.choice(["a", "key", "x1", "K" * rng.choice([1, 100, 200]), "Key", "KEY", "A", "protocol", "Protocol"])
             val = rng.choice([None, None, "", "v", "a=b", "=", "v" * 50])
             if len(key) + (len(val) + 1 if val is not None else 0) <= 255:
                 items.append((key, val))
